@@ -12,7 +12,7 @@ use serde_json::{json, Value};
 use std::collections::VecDeque;
 use std::time::Duration;
 
-pub const RULE: &str = "cases = (file bytes, file name, stdin bytes, sub-command): file = generated program (rendered with junk, deep areas up to 4096 \
+pub const RULE: &str = "cases = (file bytes, file name, stdin bytes, sub-command): file = generated program (rendered with junk, multi-limb arithmetic incl. power-of-two factors, deep areas up to 4096 \
 operators, large counts) | such a program with an invalid byte spliced in | valid UTF-8 cut in the middle of its last multi-byte character | random bytes | empty; \
 name = p.hyeong | p.txt | no extension | .hyeong | missing file | a directory called d.hyeong; stdin = valid text | text with an invalid byte on some line | \
 random bytes | empty; sub-command = run -O0/-O1/-O2 | check. A byte-level model predicts the exit status: unreadable / wrong extension / file not UTF-8 -> 1 with a \
